@@ -201,6 +201,7 @@ func (g *Gen) pushManifest(repo string) {
 	}
 	name := g.defBody(kind, toks)
 	ref := g.pick(g.tagsUsed)
+	wrongRef := false
 	switch g.r.Intn(8) {
 	case 0:
 		ref = "sha256:" + name
@@ -208,6 +209,7 @@ func (g *Gen) pushManifest(repo string) {
 		ref = "sha512:" + name
 	case 2:
 		ref = g.pick([]string{"sha256:?3", "bad:1", "bad:3", "sha256:c1"})
+		wrongRef = true
 	}
 	ct := g.pick([]string{"ocim", "ocim", "ocii", "dockm", "dockl", "", "", "other"})
 	if g.r.Intn(3) != 0 { // mostly the matching content type
@@ -232,7 +234,10 @@ func (g *Gen) pushManifest(repo string) {
 	if ct != "" && g.r.Intn(8) == 0 {
 		line += " ctform=" + g.pick([]string{"param", "upper"})
 	}
-	if g.r.Intn(10) == 0 {
+	if wrongRef && g.r.Intn(2) == 0 {
+		// a digest reference that is not the body's digest, accompanied by a ?digest= that is: the reference is the declaration
+		line += " qd=" + g.pick([]string{"sha256:" + name, "sha512:" + name, "sha384:" + name})
+	} else if g.r.Intn(10) == 0 {
 		line += " qd=" + g.pick([]string{"sha256:" + name, "sha512:" + name, "sha256:?3", "bad:1"})
 	}
 	if g.profile == "limits" && g.r.Intn(2) == 0 {
@@ -533,7 +538,22 @@ func (g *Gen) uploadStep(offs map[int]int, recv map[int]string) {
 		if g.r.Intn(8) == 0 {
 			line += " cr=" + g.pick([]string{fmt.Sprintf("%d-%d", off, off+1), fmt.Sprintf("%d-%d", off+2, off+3)})
 		}
-		g.emit(line + " body=" + c)
+		out := g.emit(line + " body=" + c)
+		// a refused PUT ends the session; a client that goes on with it all the same must be refused as well - and if it
+		// is not, what it ends up storing is read back
+		if strings.HasPrefix(out, "400 ") && g.r.Intn(2) == 0 {
+			st := g.emit("UGET " + repo + " " + sid)
+			if strings.HasPrefix(st, "204 ") {
+				if i := strings.Index(st, " range=0-"); i >= 0 {
+					if end, err := strconv.Atoi(strings.Fields(st[i+9:])[0]); err == nil {
+						g.emit(fmt.Sprintf("UPATCH %s %s state=%d body=b", repo, sid, end+1))
+						full2 := full + "b"
+						g.emit(fmt.Sprintf("UPUT %s %s state=%d digest=sha512:%s body=~", repo, sid, end+2, full2))
+						g.emit("BGET " + repo + " sha512:" + full2)
+					}
+				}
+			}
+		}
 	case 9:
 		g.emit("UGET " + repo + " " + g.sessTok())
 	case 10:
